@@ -22,6 +22,18 @@ def base_files(rnd):
     chunks = [b"", blk * 3, blk * 2 + blk[:1000], corpus.rand(rnd, 40000)]
     buf, stored = ref.build_file(chunks, comp_type=0, hash_type=1, chunk_hash_type=3)
     out.append(("v-repeat", buf))
+    # a first (dictionary) entry that has stored bytes but no data: an empty zstd frame.  It is a chunk like any other
+    # for the scan: its stored bytes must hash to its checksum
+    ef = ref.zstd_compress(b"", 3, None)
+    chunks = [b""] + [corpus.text(rnd, n) for n in (50, 20, 70)]
+    stored = [ef] + [ref.zstd_compress(c, 3, None) for c in chunks[1:]]
+    ents = [{"clen": len(s_), "ulen": len(c), "digest": ref.digest(3, s_)} for c, s_ in zip(chunks, stored)]
+    body = b"".join(stored)
+    out.append(("v-emptyframe-dict", ref.build_header(hash_type=1, chunk_hash_type=3, flags=0, comp_type=2, entries=ents, data_digest=ref.digest(1, body)) + body))
+    # an unusual but legal layout: the stored header length exceeds what the sections need (padded header)
+    for comp, dic, pad in ((0, False, 1), (2, True, 37)):
+        chunks = [corpus.text(rnd, 30) if dic else b""] + [corpus.text(rnd, n) for n in (50, 20, 70)]
+        out.append(("v-padded%d-c%d" % (pad, comp), ref.build_file(chunks, comp_type=comp, hash_type=1, chunk_hash_type=3, pad=pad)[0]))
     return out
 
 
